@@ -5,6 +5,7 @@ import SSEPyVerif.Driver.ServerD
 import SSEPyVerif.Driver.ClientD
 import SSEPyVerif.Driver.ManagerD
 import SSEPyVerif.Driver.SchemeD
+import SSEPyVerif.Driver.CmdD
 
 open SSEPy SSEPy.Driver
 
@@ -16,6 +17,7 @@ structure DState where
   mgr : MgrD := {}
   cw : ClientIR.World := {}
   sch : SchD := {}
+  cmd : SSEPy.Cmd.World := {}
 
 def dispatch (st : DState) (line : String) : DState × String :=
   match (line.trimAscii.toString.splitOn " ") with
@@ -33,6 +35,7 @@ def dispatch (st : DState) (line : String) : DState × String :=
   | "mgr" :: rest => let (p, r) := mgrReq st.mgr rest; ({ st with mgr := p }, r)
   | "srv" :: rest => let (p, r) := srvReq st.srv rest; ({ st with srv := p }, r)
   | "sch" :: rest => let (p, r) := schReq st.tables st.sch rest; ({ st with sch := p }, r)
+  | "cmd" :: rest => let (p, r) := cmdReq st.cmd rest; ({ st with cmd := p }, r)
   | "parr" :: rest => let (p, r) := parrReq st.parr rest; ({ st with parr := p }, r)
   | _ => (st, Proto.bad)
 
